@@ -17,7 +17,7 @@ MkConfs(mins, periods, caps, fees, flags, v0s) ==
 
 ConfsTiny   == MkConfs({3}, {1}, {0}, {0}, {T}, {4})
 ConfsSmall  == MkConfs({3}, {1}, {0}, {0, 2500}, {T}, {4})
-ConfsMedium == MkConfs({3}, {0, 1, 2}, {0, 12}, {0, 2500}, {T, F}, {4, 6})
+ConfsMedium == MkConfs({3}, {0, 1}, {0, 12}, {0, 2500}, {T}, {4})
 ConfsSim    == {[c EXCEPT !.ubv2 = u, !.e0 = e] : c \in MkConfs({3, 5}, {0, 1, 2}, {0, 14, 30}, {0, 1000, 2500, 10000}, {T, F}, {6, 9}),
                                                   u \in BOOLEAN, e \in {0, 1, 3}}
 
